@@ -10,24 +10,25 @@ TECHNIQUE = ("Coq: inductive invariant over a small-step interleaving model of s
              "(send-error path of sendRecv) and by differential runs of the real pool and the real Client against a scripted fake server")
 LEVEL_TEXT = ("Theorems for every reachable state of the interleaving model (any number of calls, any schedule, replies in any order, unknown tags, "
               "wrong types, receive errors, short frames, send failures): distinct tags/slots, one owner per pending slot, no blocked send on done, "
-              "routing, fail-all, stuck-freedom; allocator and fid-freshness theorems for all operation sequences. Every run re-checks the proofs, "
+              "routing / no foreign data, fail-all, stuck-freedom, later calls fail on a dead connection; allocator and fid-freshness theorems for all operation sequences. Every run re-checks the proofs, "
               "regenerates ClientGen.sendrecv_withdraws from the source, enumerates all allocator sequences on the real pool, and drives the real Client "
               "with every reply permutation of small batches, random orders of up to 64 goroutines, every fault kind after every number of replies, "
-              "and injected send failures; each call must return (watchdog, confirmed 3x) with its own data or an error.")
+              "injected send failures, two forced schedules (a reply arriving while its call's send fails; a reply arriving before send returns) and scripted "
+              "binding requests (answered / refused / lost) against the fid allocator; each call must return (watchdog, confirmed 3x) with its own data or an error; a Go panic is an observation.")
 LEVEL_NOTE = ("Trusted: Coq kernel + vm_compute; hand model Client/Mux.v (atomicity = one critical section / channel operation per step; sync.Pool modelled as "
-              "'any slot no running call holds'); Go channel/mutex semantics. Partial: 'later calls fail' has no Coq theorem (harness only); liveness is "
-              "stuck-freedom of the model plus watchdog observation; the Mux theorems assume a peer that answers only requests it received "
-              "(C10_send_race_refuted shows the nil dereference otherwise; /verif/fixes/C10-reply-during-failed-send.md).")
+              "'any slot no running call holds and that was not withdrawn'); Go channel/mutex semantics. The peer is arbitrary (frames with any tag at any time). "
+              "Liveness is stuck-freedom of the model plus watchdog observation (scheduler and transport progress are outside). C10_later_fail assumes that a dead "
+              "connection stays dead (every later send and receive fails).")
 DESIGN_REF = "6/C10"
 ASSUMPTIONS = [
-    "a reply frame carrying tag t arrives only after the request that registered t was sent successfully (honest peer); without it: C10_send_race_refuted",
     "sync.Mutex / channel operations are atomic and sequentially consistent; sync.Pool returns some object no running call holds",
-    "the fid pool discipline assumes binding requests fail by Rlerror (a binding request lost to a non-fatal transport error returns its fid to the pool although the server may have bound it)",
+    "C10_later_fail: once the connection has failed, every later send and receive on it fails (dead_forever in the model)",
+    "C10_fid_fresh: the server binds a fid only by a successful binding request and unbinds it by a confirmed clunk/remove (C04); nothing is assumed about how requests fail",
 ]
 TRUSTED_BASE = [
     "Coq 8.16.1 kernel, vm_compute (cases evaluation, refutation witnesses); CoqHammer is imported but no proof uses its axioms",
     "axioms: none (Print Assumptions: closed under the global context)",
-    "go2coq ClientGen (sendrecv_withdraws, Get/Put sites)",
+    "go2coq ClientGen (sendRecv: registers before send / withdraws / does not recycle a withdrawn response; handleOne re-check; releaseFID policy; Get/Put sites)",
     "hand-written models Client/Pool.v, Client/Mux.v, Client/Fids.v, tied by harness/p9/c10_test.go + Client/MuxCases.v",
 ]
 
